@@ -2387,6 +2387,553 @@ theorem rpm_selector_with_index_not_array (o : Object) (i : Nat) (s : Slot)
     readToElem (some o) s.d.id (some i) = .ok ⟨s.d.id, some i, .err .notAnArray⟩ := by
   simp [readToElem, readToAny_eq, readObject, hs, propRead_not_array o s i hc hna, Refusal.isExec]
 
+/-! ## error_matches as a total, ordered case split — reads -/
+
+/-- stored values whose un-encodable elements (un-initialised `fix_length`
+    defaults) fail with a Reject / operational-problem, never with an
+    ExecutionError code: true of every state reached from values that encode,
+    because `fix_length` only appends the table's default (`generated_table_ok`:
+    `itemOK dflt`) — `slotOK_stdWrite` -/
+def pvalOK : PVal → Bool
+  | .absent => true
+  | .one it => itemOK it
+  | .arr its => its.all itemOK
+  | .lst its => its.all itemOK
+
+def slotOK (s : Slot) : Bool :=
+  pvalOK s.v &&
+  (match s.d.custom with | .computed val => itemOK val | _ => true) &&
+  (match s.d.dt with | .arrayOf _ _ dflt => itemOK dflt | _ => true)
+
+def rvOK : RVal → Bool
+  | .none => true
+  | .whole v => pvalOK v
+  | .len _ => true
+  | .elem it => itemOK it
+
+/-- the serving classes that go through `Property.ReadProperty` -/
+def stdLike (c : Custom) : Bool :=
+  match c with
+  | .std => true | .objId => true | .wrName => true
+  | _ => false
+
+theorem stdLike_iff (c : Custom) : stdLike c = true ↔ isStd c := by
+  cases c <;> simp [stdLike, isStd]
+
+/-- condition of property-is-not-an-array (given an index): the property is
+    computed by the device, or served by Property.ReadProperty and not an array -/
+def condNotArray (s : Slot) : Bool :=
+  match s.d.custom with
+  | .computed _ => true
+  | .propList => false
+  | _ => !s.d.dt.isArray
+
+/-- condition of invalid-array-index for index `i`: beyond the stored array /
+    beyond the computed property list -/
+def condBadIndex (o : Object) (s : Slot) (i : Nat) : Bool :=
+  match s.d.custom with
+  | .propList => decide (i > (listedProps o.props).length)
+  | .computed _ => false
+  | _ => s.d.dt.isArray && (match s.v with | .arr its => decide (i > its.length) | _ => false)
+
+/-- condition under which ReadProperty finds "no value" (Python None) -/
+def condAbsent (s : Slot) (idx : Option Nat) : Bool :=
+  stdLike s.d.custom && s.v == .absent && (idx.isNone || s.d.dt.isArray)
+
+/-- an array property that does not hold an ArrayOf (outside the modelled states) -/
+def condIllShaped (s : Slot) : Bool :=
+  stdLike s.d.custom && s.d.dt.isArray &&
+    (match s.v with | .one _ => true | .lst _ => true | _ => false)
+
+theorem arrayGet_error_iff (its : List Item) (i : Nat) (e : Refusal) :
+    arrayGet its i = .error e ↔ e = .invalidArrayIndex ∧ i > its.length := by
+  unfold arrayGet
+  by_cases h1 : i > its.length
+  · simp [h1]; exact eq_comm
+  · by_cases h2 : i = 0
+    · simp [h2]
+    · have hk : i - 1 < its.length := by omega
+      simp [h1, h2, List.getElem?_eq_getElem hk]
+
+theorem stdRead_error_iff (s : Slot) (idx : Option Nat) (e : Refusal) :
+    stdRead s idx = .error e ↔
+      ∃ i, idx = some i ∧
+        ((e = .notAnArray ∧ s.d.dt.isArray = false) ∨
+         (e = .invalidArrayIndex ∧ s.d.dt.isArray = true ∧ ∃ its, s.v = .arr its ∧ i > its.length) ∨
+         (e = .opProblem ∧ s.d.dt.isArray = true ∧ ((∃ it, s.v = .one it) ∨ ∃ its, s.v = .lst its))) := by
+  unfold stdRead
+  cases idx with
+  | none => simp only; split <;> simp
+  | some i =>
+    simp only
+    cases harr : s.d.dt.isArray with
+    | false => simp; exact eq_comm
+    | true =>
+      simp only [Bool.not_true, Bool.false_eq_true, ↓reduceIte]
+      cases hv : s.v with
+      | absent => simp
+      | arr its => simp [arrayGet_error_iff]
+      | one it => simp; exact eq_comm
+      | lst its => simp; exact eq_comm
+
+theorem stdRead_none_iff (s : Slot) (idx : Option Nat) :
+    stdRead s idx = .ok .none ↔ s.v = .absent ∧ (idx = none ∨ s.d.dt.isArray = true) := by
+  unfold stdRead
+  cases idx with
+  | none => simp only; split <;> simp_all
+  | some i =>
+    simp only
+    cases harr : s.d.dt.isArray with
+    | false => simp
+    | true =>
+      simp only [Bool.not_true, Bool.false_eq_true, ↓reduceIte]
+      cases hv : s.v with
+      | absent => simp
+      | arr its =>
+        simp only [reduceCtorEq, false_and, iff_false]
+        intro h
+        unfold arrayGet at h
+        split at h
+        · simp at h
+        · split at h
+          · simp at h
+          · split at h <;> simp at h
+      | one it => simp
+      | lst its => simp
+
+
+theorem propListRead_error_iff (o : Object) (idx : Option Nat) (e : Refusal) :
+    propListRead o idx = .error e ↔
+      ∃ i, idx = some i ∧ e = .invalidArrayIndex ∧ i > (listedProps o.props).length := by
+  unfold propListRead
+  cases idx with
+  | none => simp
+  | some i =>
+    simp only
+    by_cases h0 : i = 0
+    · subst h0; simp
+    · by_cases h1 : i > (listedProps o.props).length
+      · have h1' : (listedProps o.props).length < i := h1
+        simp [h0, h1']; exact eq_comm
+      · have hk : i - 1 < (listedProps o.props).length := by omega
+        have h1' : ¬ (listedProps o.props).length < i := by omega
+        simp [h0, h1', List.getElem?_eq_getElem hk]
+
+theorem propListRead_ne_none (o : Object) (idx : Option Nat) : propListRead o idx ≠ .ok .none := by
+  unfold propListRead
+  cases idx with
+  | none => simp
+  | some i =>
+    simp only
+    split
+    · simp
+    · split
+      · simp
+      · split <;> simp
+
+/-- when `prop.ReadProperty` raises, and what -/
+theorem propRead_error_iff (o : Object) (s : Slot) (idx : Option Nat) (e : Refusal) :
+    propRead o s idx = .error e ↔
+      ∃ i, idx = some i ∧
+        ((e = .notAnArray ∧ condNotArray s = true) ∨
+         (e = .invalidArrayIndex ∧ condNotArray s = false ∧ condBadIndex o s i = true) ∨
+         (e = .opProblem ∧ condIllShaped s = true)) := by
+  unfold propRead condNotArray condBadIndex condIllShaped
+  cases hc : s.d.custom with
+  | propList => simp [propListRead_error_iff, stdLike]
+  | computed v =>
+    cases idx with
+    | none => simp
+    | some i => simp [stdLike]; exact eq_comm
+  | std | objId | wrName =>
+    simp only [stdRead_error_iff, stdLike, Bool.true_and]
+    constructor
+    · rintro ⟨i, hi, h⟩
+      refine ⟨i, hi, ?_⟩
+      rcases h with ⟨he, ha⟩ | ⟨he, ha, its, hv, hl⟩ | ⟨he, ha, hv⟩
+      · exact Or.inl ⟨he, by simp [ha]⟩
+      · exact Or.inr (Or.inl ⟨he, by simp [ha], by simp [ha, hv, hl]⟩)
+      · refine Or.inr (Or.inr ⟨he, ?_⟩)
+        rcases hv with ⟨it, hv⟩ | ⟨its, hv⟩ <;> simp [ha, hv]
+    · rintro ⟨i, hi, h⟩
+      refine ⟨i, hi, ?_⟩
+      rcases h with ⟨he, ha⟩ | ⟨he, ha, hb⟩ | ⟨he, hb⟩
+      · exact Or.inl ⟨he, by simpa using ha⟩
+      · have ha' : s.d.dt.isArray = true := by simpa using ha
+        refine Or.inr (Or.inl ⟨he, ha', ?_⟩)
+        simp only [ha', Bool.true_and] at hb
+        split at hb
+        · rename_i its hv; exact ⟨its, hv, by simpa using hb⟩
+        · simp at hb
+      · simp only [Bool.and_eq_true] at hb
+        refine Or.inr (Or.inr ⟨he, hb.1, ?_⟩)
+        have := hb.2
+        split at this
+        · rename_i it hv; exact Or.inl ⟨it, hv⟩
+        · rename_i its hv; exact Or.inr ⟨its, hv⟩
+        · simp at this
+
+/-- when `prop.ReadProperty` returns Python `None` -/
+theorem propRead_none_iff (o : Object) (s : Slot) (idx : Option Nat) :
+    propRead o s idx = .ok .none ↔ condAbsent s idx = true := by
+  unfold propRead condAbsent
+  cases hc : s.d.custom with
+  | propList => simp [stdLike, propListRead_ne_none]
+  | computed v => cases idx <;> simp [stdLike]
+  | std | objId | wrName =>
+    simp only [stdRead_none_iff, stdLike, Bool.true_and, Bool.and_eq_true, beq_iff_eq, Bool.or_eq_true,
+      Option.isNone_iff_eq_none]
+
+
+theorem encItem_error (it : Item) (e : Refusal) (h : encItem it = .error e) (hok : itemOK it = true) :
+    e.isExec = false := by
+  cases it with
+  | enc t => simp [encItem] at h
+  | unenc r => simp [encItem] at h; subst h; simpa [itemOK] using hok
+
+theorem encItems_error : ∀ (its : List Item) (e : Refusal), encItems its = .error e →
+    its.all itemOK = true → e.isExec = false := by
+  intro its
+  induction its with
+  | nil => intro e h; simp [encItems] at h
+  | cons it rest ih =>
+    intro e h hok
+    simp only [List.all_cons, Bool.and_eq_true] at hok
+    cases it with
+    | unenc r => simp [encItems] at h; subst h; simpa [itemOK] using hok.1
+    | enc t =>
+      simp only [encItems] at h
+      split at h
+      · rename_i r hr; simp at h; subst h; exact ih _ hr hok.2
+      · simp at h
+
+/-- the encoding step fails either because there is no value (unknown-property)
+    or with a refusal that is not an ExecutionError -/
+theorem rpEncode_error (dt : DT) (idx : Option Nat) (rv : RVal) (e : Refusal)
+    (h : rpEncode dt idx rv = .error e) (hok : rvOK rv = true) :
+    (rv = .none ∧ e = .unknownProperty) ∨ e.isExec = false := by
+  unfold rpEncode at h
+  cases rv with
+  | none => simp at h; exact Or.inl ⟨rfl, h.symm⟩
+  | len n => simp [encItem, unsignedItem] at h
+  | elem it => exact Or.inr (encItem_error it e h hok)
+  | whole v =>
+    right
+    simp only at h
+    split at h
+    · exact encItem_error _ e h hok
+    · exact encItems_error _ e h hok
+    · exact encItems_error _ e h hok
+    · simp at h; subst h; rfl
+
+theorem propRead_rvOK (o : Object) (s : Slot) (idx : Option Nat) (rv : RVal)
+    (h : propRead o s idx = .ok rv) (hok : slotOK s = true) : rvOK rv = true := by
+  simp only [slotOK, Bool.and_eq_true] at hok
+  obtain ⟨⟨hv, hc⟩, _⟩ := hok
+  unfold propRead at h
+  split at h
+  · unfold propListRead at h
+    cases idx with
+    | none => simp at h; subst h; simp [rvOK, pvalOK, itemOK, enumItem]
+    | some i =>
+      simp only at h
+      split at h
+      · simp at h; subst h; rfl
+      · split at h
+        · simp at h
+        · split at h
+          · rename_i it hit
+            simp at h; subst h
+            have := List.mem_of_getElem? hit
+            simp only [List.mem_map] at this
+            obtain ⟨p, _, hp⟩ := this
+            subst hp; simp [rvOK, itemOK, enumItem]
+          · simp at h
+  · rename_i val hcu
+    cases idx with
+    | none => simp at h; subst h; simpa [rvOK, pvalOK, hcu] using hc
+    | some i => simp at h
+  · unfold stdRead at h
+    cases idx with
+    | none =>
+      simp only at h
+      split at h
+      · simp at h; subst h; rfl
+      · simp at h; subst h; simpa [rvOK] using hv
+    | some i =>
+      simp only at h
+      split at h
+      · simp at h
+      · split at h
+        · simp at h; subst h; rfl
+        · rename_i its hvv
+          unfold arrayGet at h
+          split at h
+          · simp at h
+          · split at h
+            · simp at h; subst h; rfl
+            · split at h
+              · rename_i it hit
+                simp at h; subst h
+                have hm := List.mem_of_getElem? hit
+                rw [hvv] at hv
+                simp only [pvalOK, List.all_eq_true] at hv
+                simpa [rvOK] using hv it hm
+              · simp at h
+        · simp at h
+
+/-- the decision ladder of `do_ReadPropertyRequest` as a total, ordered case
+    split over conditions on the state: `some e` = the request is refused with
+    the ExecutionError `e`; `none` = the value is read and handed to the encoder -/
+def readLadder (d : Device) (oid : Oid) (pid : Nat) (idx : Option Nat) : Option Refusal :=
+  match findObj (resolveOid d oid) d.objs with
+  | none => some .unknownObject
+  | some o =>
+    match findSlot pid o.props with
+    | none => some .unknownProperty
+    | some s =>
+      match idx with
+      | some i =>
+        if condNotArray s then some .notAnArray
+        else if condBadIndex o s i then some .invalidArrayIndex
+        else if condAbsent s idx then some .unknownProperty
+        else none
+      | none => if condAbsent s idx then some .unknownProperty else none
+
+def deviceItemsOK (d : Device) : Bool :=
+  d.objs.all fun p => p.2.props.all slotOK
+
+theorem findSlot_mem (pid : Nat) (props : List Slot) (s : Slot) (h : findSlot pid props = some s) :
+    s ∈ props := by
+  induction props with
+  | nil => simp [findSlot] at h
+  | cons x rest ih =>
+    unfold findSlot at h
+    split at h
+    · simp at h; subst h; simp
+    · exact List.mem_cons_of_mem _ (ih h)
+
+theorem slotOK_of_device (d : Device) (oid : Oid) (o : Object) (pid : Nat) (s : Slot)
+    (hok : deviceItemsOK d = true) (ho : findObj oid d.objs = some o)
+    (hs : findSlot pid o.props = some s) : slotOK s = true := by
+  have h1 := (List.all_eq_true.mp hok) _ (findObj_mem _ _ _ ho)
+  exact (List.all_eq_true.mp h1) _ (findSlot_mem _ _ _ hs)
+
+/-- the ladder decides: what it says is the answer -/
+theorem readLadder_sound (d : Device) (oid : Oid) (pid : Nat) (idx : Option Nat) (e : Refusal)
+    (h : readLadder d oid pid idx = some e) : readService d oid pid idx = .error e := by
+  unfold readLadder at h
+  unfold readService
+  cases ho : findObj (resolveOid d oid) d.objs with
+  | none => simp [ho] at h; subst h; rfl
+  | some o =>
+    simp only [ho] at h ⊢
+    cases hs : findSlot pid o.props with
+    | none => simp [hs] at h; subst h; rfl
+    | some s =>
+      simp only [hs] at h ⊢
+      cases idx with
+      | none =>
+        simp only at h
+        split at h
+        · rename_i habs
+          simp at h; subst h
+          simp [(propRead_none_iff o s none).mpr habs, rpEncode]
+        · simp at h
+      | some i =>
+        simp only at h
+        split at h
+        · rename_i hna
+          simp at h; subst h
+          have : propRead o s (some i) = .error .notAnArray :=
+            (propRead_error_iff o s (some i) _).mpr ⟨i, rfl, Or.inl ⟨rfl, hna⟩⟩
+          simp [this]
+        · rename_i hna
+          split at h
+          · rename_i hbi
+            simp at h; subst h
+            have : propRead o s (some i) = .error .invalidArrayIndex :=
+              (propRead_error_iff o s (some i) _).mpr
+                ⟨i, rfl, Or.inr (Or.inl ⟨rfl, by simpa using hna, hbi⟩)⟩
+            simp [this]
+          · split at h
+            · rename_i habs
+              simp at h; subst h
+              simp [(propRead_none_iff o s (some i)).mpr habs, rpEncode]
+            · simp at h
+
+/-- … and where the ladder lets the request through, the answer is an ack or a
+    refusal that is not an ExecutionError (an element that cannot be encoded,
+    an ill-shaped stored value) -/
+theorem readLadder_complete (d : Device) (oid : Oid) (pid : Nat) (idx : Option Nat)
+    (hok : deviceItemsOK d = true) (h : readLadder d oid pid idx = none) :
+    ∀ e, readService d oid pid idx = .error e → e.isExec = false := by
+  intro e he
+  unfold readLadder at h
+  unfold readService at he
+  cases ho : findObj (resolveOid d oid) d.objs with
+  | none => simp [ho] at h
+  | some o =>
+    simp only [ho] at h he
+    cases hs : findSlot pid o.props with
+    | none => simp [hs] at h
+    | some s =>
+      simp only [hs] at h he
+      have hsok := slotOK_of_device d _ o pid s hok ho hs
+      cases hp : propRead o s idx with
+      | error r =>
+        simp [hp] at he; subst he
+        obtain ⟨i, hi, hcase⟩ := (propRead_error_iff o s idx r).mp hp
+        subst hi
+        simp only at h
+        rcases hcase with ⟨_, hna⟩ | ⟨_, hna, hbi⟩ | ⟨hr, _⟩
+        · simp [hna] at h
+        · simp [hna, hbi] at h
+        · subst hr; rfl
+      | ok rv =>
+        simp only [hp] at he
+        have hrv := propRead_rvOK o s idx rv hp hsok
+        rcases rpEncode_error _ _ _ _ he hrv with ⟨hnone, _⟩ | hne
+        · subst hnone
+          have habs := (propRead_none_iff o s idx).mp hp
+          cases idx with
+          | none => simp [habs] at h
+          | some i =>
+            simp only at h
+            split at h
+            · simp at h
+            · split at h
+              · simp at h
+              · simp at h
+        · exact hne
+
+/-- **error_matches, reads, both directions**: for every ExecutionError code
+    (unknown-object, unknown-property, property-is-not-an-array,
+    invalid-array-index, …) ReadProperty answers Error `e` **iff** the ladder
+    decides `e` — no other situation produces these answers, and none of these
+    situations produces a different answer. -/
+theorem read_error_iff (d : Device) (oid : Oid) (pid : Nat) (idx : Option Nat) (e : Refusal)
+    (hok : deviceItemsOK d = true) (hex : e.isExec = true) :
+    readService d oid pid idx = .error e ↔ readLadder d oid pid idx = some e := by
+  constructor
+  · intro h
+    cases hl : readLadder d oid pid idx with
+    | none =>
+      have := readLadder_complete d oid pid idx hok hl e h
+      rw [this] at hex; simp at hex
+    | some e' =>
+      have := readLadder_sound d oid pid idx e' hl
+      rw [this] at h; simp at h; subst h; rfl
+  · exact readLadder_sound d oid pid idx e
+
+
+theorem condBadIndex_notArray (o : Object) (s : Slot) (i : Nat) (h : condBadIndex o s i = true) :
+    condNotArray s = false := by
+  unfold condBadIndex at h
+  unfold condNotArray
+  cases hc : s.d.custom <;> simp_all
+
+theorem condAbsent_some (o : Object) (s : Slot) (i : Nat) (h : condAbsent s (some i) = true) :
+    condNotArray s = false ∧ condBadIndex o s i = false := by
+  unfold condAbsent at h
+  unfold condNotArray condBadIndex
+  cases hc : s.d.custom <;> simp_all [stdLike]
+
+/-- the four read refusals, each with its exact condition -/
+theorem read_unknown_object_iff (d : Device) (oid : Oid) (pid : Nat) (idx : Option Nat)
+    (hok : deviceItemsOK d = true) :
+    readService d oid pid idx = .error .unknownObject ↔ findObj (resolveOid d oid) d.objs = none := by
+  rw [read_error_iff d oid pid idx _ hok rfl]
+  unfold readLadder
+  cases ho : findObj (resolveOid d oid) d.objs with
+  | none => simp
+  | some o =>
+    simp only [reduceCtorEq, iff_false]
+    cases hs : findSlot pid o.props with
+    | none => simp
+    | some s =>
+      cases idx with
+      | none => simp only; split <;> simp
+      | some i => simp only; split <;> (try split) <;> (try split) <;> simp
+
+theorem read_unknown_property_iff (d : Device) (oid : Oid) (pid : Nat) (idx : Option Nat)
+    (hok : deviceItemsOK d = true) :
+    readService d oid pid idx = .error .unknownProperty ↔
+      ∃ o, findObj (resolveOid d oid) d.objs = some o ∧
+        (findSlot pid o.props = none ∨ ∃ s, findSlot pid o.props = some s ∧ condAbsent s idx = true) := by
+  rw [read_error_iff d oid pid idx _ hok rfl]
+  unfold readLadder
+  cases ho : findObj (resolveOid d oid) d.objs with
+  | none => simp
+  | some o =>
+    simp only [Option.some.injEq, exists_eq_left']
+    cases hs : findSlot pid o.props with
+    | none => simp
+    | some s =>
+      simp only [Option.some.injEq, exists_eq_left', reduceCtorEq, false_or]
+      cases idx with
+      | none => simp only; split <;> simp_all
+      | some i =>
+        simp only
+        by_cases habs : condAbsent s (some i) = true
+        · obtain ⟨h1, h2⟩ := condAbsent_some o s i habs
+          simp [h1, h2, habs]
+        · simp only [habs, Bool.false_eq_true, iff_false]
+          split
+          · simp
+          · split <;> simp
+
+theorem read_not_an_array_iff (d : Device) (oid : Oid) (pid : Nat) (idx : Option Nat)
+    (hok : deviceItemsOK d = true) :
+    readService d oid pid idx = .error .notAnArray ↔
+      ∃ o s i, findObj (resolveOid d oid) d.objs = some o ∧ findSlot pid o.props = some s ∧
+        idx = some i ∧ condNotArray s = true := by
+  rw [read_error_iff d oid pid idx _ hok rfl]
+  unfold readLadder
+  cases ho : findObj (resolveOid d oid) d.objs with
+  | none => simp
+  | some o =>
+    simp only [Option.some.injEq]
+    cases hs : findSlot pid o.props with
+    | none => simp [hs]
+    | some s =>
+      cases idx with
+      | none => simp only; split <;> simp
+      | some i =>
+        simp only [Option.some.injEq]
+        by_cases hna : condNotArray s = true
+        · simp [hs, hna]
+        · simp only [hna, Bool.false_eq_true, ↓reduceIte]
+          split
+          · simp [hs, hna]
+          · split <;> simp [hs, hna]
+
+theorem read_invalid_array_index_iff (d : Device) (oid : Oid) (pid : Nat) (idx : Option Nat)
+    (hok : deviceItemsOK d = true) :
+    readService d oid pid idx = .error .invalidArrayIndex ↔
+      ∃ o s i, findObj (resolveOid d oid) d.objs = some o ∧ findSlot pid o.props = some s ∧
+        idx = some i ∧ condBadIndex o s i = true := by
+  rw [read_error_iff d oid pid idx _ hok rfl]
+  unfold readLadder
+  cases ho : findObj (resolveOid d oid) d.objs with
+  | none => simp
+  | some o =>
+    simp only [Option.some.injEq]
+    cases hs : findSlot pid o.props with
+    | none => simp [hs]
+    | some s =>
+      cases idx with
+      | none => simp only; split <;> simp
+      | some i =>
+        simp only [Option.some.injEq]
+        by_cases hbi : condBadIndex o s i = true
+        · simp [hs, condBadIndex_notArray o s i hbi, hbi]
+        · simp only [hbi, Bool.false_eq_true, ↓reduceIte]
+          split
+          · simp [hs, hbi]
+          · split <;> simp [hs, hbi]
+
+
 /-! ## non-vacuity: concrete instances that meet the hypotheses
 
   A device built from the GENERATED table: an analogValue object of a vendor
